@@ -552,7 +552,7 @@ func ruleENullHelpers(p *Program, r *Reporter) {
 		for _, e := range node.In {
 			cn := p.FuncName(e.Caller.Func)
 			callers = append(callers, cn)
-			if e.Caller.Func.Name() != "evaluate" {
+			if e.Caller.Func != p.RoleFunc("evaluator", "evaluator", "evaluate") && e.Caller.Func.Name() != "evaluate" {
 				bad = cn
 			}
 		}
